@@ -535,8 +535,14 @@ def resolve(op, g):
         return (n, _res(op[1], W))
     if n == "set_column_cells":
         return (n, _res(op[1], W), op[2])
-    if n == "set_values":
+    if n in ("set_values", "set_cells"):
         return (n, op[1], _res(op[2], W), _res(op[3], H))
+    if n in ("set_row_values", "set_row_cells"):
+        return (n, _res(op[1], H), op[2])
+    if n == "set_column_values":
+        return (n, _res(op[1], W), op[2])
+    if n == "extend_rows":
+        return op
     if n in ("rset_cell", "rinsert_cell"):
         y = _res(op[1], H)
         rw = len(g.rows[y]) if y < H else 0
@@ -620,6 +626,16 @@ def apply_real(t, op):
         t.set_column_cells(op[1], [Cell(op[2] + i) for i in range(t.height)])
     elif n == "set_values":
         t.set_values(_block(op[1], _BLOCK_BASE), coord=(op[2], op[3]))
+    elif n == "set_cells":
+        t.set_cells([[Cell(v) for v in line] for line in _block(op[1], _BLOCK_BASE)], coord=(op[2], op[3]))
+    elif n == "set_row_values":
+        t.set_row_values(op[1], _flat(op[2], _BLOCK_BASE))
+    elif n == "set_row_cells":
+        t.set_row_cells(op[1], [_mk_cell(val, rep) for val, rep in _content(op[2], _BLOCK_BASE)])
+    elif n == "set_column_values":
+        t.set_column_values(op[1], [op[2] + i for i in range(t.height)])
+    elif n == "extend_rows":
+        t.extend_rows([_mk_row(op[1], op[2], op[3]), _mk_row("R1", op[2] + 5, 1)])
     elif n == "live_row_repeated":
         t.get_row(op[1], clone=False).repeated = op[2]
     elif n[0] == "r":
@@ -674,8 +690,15 @@ def apply_model(g, op):
         g.delete_column(op[1])
     elif n == "set_column_cells":
         g.set_column_cells(op[1], [op[2] + i for i in range(g.H)])
-    elif n == "set_values":
+    elif n in ("set_values", "set_cells"):
         g.set_values(_block(op[1], _BLOCK_BASE), op[2], op[3])
+    elif n in ("set_row_values", "set_row_cells"):
+        g.set_row(op[1], _flat(op[2], _BLOCK_BASE), 1)
+    elif n == "set_column_values":
+        g.set_column_cells(op[1], [op[2] + i for i in range(g.H)])
+    elif n == "extend_rows":
+        g.append_row(_flat(op[1], op[2]), op[3])
+        g.append_row(_flat("R1", op[2] + 5), 1)
     elif n[0] == "r":
         y = op[1]
         row = list(g.rows[y]) if y < g.H else []
@@ -698,6 +721,7 @@ def apply_model(g, op):
 
 OPS = ["set_value", "set_cell", "insert_cell", "append_cell", "delete_cell", "set_row", "insert_row", "append_row",
        "delete_row", "insert_column", "append_column", "delete_column", "set_column_cells", "set_values",
+       "set_cells", "set_row_values", "set_row_cells", "set_column_values", "extend_rows",
        "rset_cell", "rinsert_cell", "rappend_cell", "rdelete_cell", "rset_values", "live_row_repeated"]
 ROW_ADDRESSED = {"set_value", "set_cell", "insert_cell", "append_cell", "delete_cell",
                  "rset_cell", "rinsert_cell", "rappend_cell", "rdelete_cell", "rset_values", "live_row_repeated"}
@@ -968,6 +992,16 @@ def full_alphabet(coords=(0, 1, 2, LAST, E, BEY)):
     for spec in ("1x1", "2x2", "1x3", "gap"):
         for x, y in ((0, 0), (1, 1), (0, E), (E, 0), (BEY, BEY), (LAST, LAST)):
             ops.append(("set_values", spec, x, y))
+            ops.append(("set_cells", spec, x, y))
+    for y in coords:
+        for rc in ("R1", "R3"):
+            ops.append(("set_row_values", y, rc))
+            ops.append(("set_row_cells", y, rc))
+    for x in coords:
+        ops.append(("set_column_values", x, v + 95))
+    for rc in ROW_CONTENTS:
+        for k in (1, 2):
+            ops.append(("extend_rows", rc, v + 85, k))
     return ops
 
 
@@ -982,6 +1016,8 @@ REDUCED = [
     ("insert_column", 0, "cy", 1), ("insert_column", 1, "cy", 2), ("append_column", "cz", 2),
     ("delete_column", 0), ("delete_column", LAST),
     ("set_column_cells", 1, 260), ("set_values", "2x2", 1, 1),
+    ("set_cells", "2x2", 1, 0), ("set_row_values", 1, "R3"), ("set_row_cells", 0, "R3"), ("set_column_values", 0, 280),
+    ("extend_rows", "R3", 290, 2),
     ("rset_cell", 1, 0, 270, 2), ("rinsert_cell", 1, 1, 271, 1), ("rappend_cell", 0, 272, 2),
     ("rdelete_cell", 1, 0), ("rset_values", 0, "R3", 1),
 ]
@@ -1070,7 +1106,8 @@ def _history_clauses():
 _H_REASON = ("history-level statement over run-length encoded XML: the per-function contracts are proved or bounded in "
              "specs/vault*.py; this is the composition over call sequences, checked natively")
 _ALPHA_TXT = ("alphabet {set_value, set_cell, insert_cell, append_cell, delete_cell, set_row, insert_row, append_row, "
-              "delete_row, insert_column, append_column, delete_column, set_column_cells, set_values(block), and "
+              "delete_row, insert_column, append_column, delete_column, set_column_cells, set_column_values, set_values(block), "
+              "set_cells(block), set_row_values, set_row_cells, extend_rows, and "
               "Row.set_cell/insert_cell/append_cell/delete_cell/set_values on a get_row copy pushed back with set_row, "
               "live row.repeated=n}")
 
@@ -1080,7 +1117,7 @@ contract(
     ensures=_history_clauses(),
     gen=_gen_h1, call_native=_call_history,
     bounded=dict(
-        scope="the empty history and every single operation of the full alphabet (744 calls: " + _ALPHA_TXT + ") with "
+        scope="the empty history and every single operation of the full alphabet (about 840 calls: " + _ALPHA_TXT + ") with "
               "coordinates {0, 1, 2, last, edge, edge+2} on each axis, repeat counts 1..3 on set cells / rows / columns "
               "and 1..2 on inserted cells, row contents {no cell, one cell, cell runs (2,1)}, value blocks {1x1, 2x2, "
               "1x3 with a hole, 3 lines with an empty one} at 6 corners, Row.set_values starts {0, 1, edge, edge+2}, "
@@ -1101,7 +1138,7 @@ contract(
     ensures=_history_clauses(),
     gen=_gen_h2, call_native=_call_history,
     bounded=dict(
-        scope="all 729 ordered pairs of a reduced alphabet of 27 operations on 5 initial tables (empty, Table(2,2), 3 "
+        scope="all 1024 ordered pairs of a reduced alphabet of 32 operations on 5 initial tables (empty, Table(2,2), 3 "
               "raw-XML run-length tables, one ragged), each once checked only at the end (no read in "
               "between) and once with cache-populating reads (get_row, get_cell, traverse, get_column) and all checks "
               "after every step; thorough: plus the pairs (with reads) on the 5 other initial tables and 8 random raw-XML "
